@@ -84,6 +84,8 @@ def main() -> int:
         (dst / "demo.py").write_text((src / "demo.py").read_text())
         if (src / "notes.md").exists():
             shutil.copy(src / "notes.md", dst / "notes.md")
+        if (src / "patch_original.diff").exists():
+            shutil.copy(src / "patch_original.diff", dst / "patch_original.diff")
         files = sorted({l[6:] for l in (src / "patch.diff").read_text().splitlines() if l.startswith("+++ b/")})
         meta = {
             "name": name,
